@@ -7,6 +7,7 @@ RULE = ("NetCDF files created with netCDF4: grids of rank 1-3 incl. length-1 axe
         "and a missing variable name; 1-3 results (float64/float32/int64, different masks, unmasked) written together with the real "
         "EEMSWrite against the file as template, inspected with netCDF4 (shape, kind, union of missing cells, values, copied "
         "dimension variables, inputs unchanged) and read back through EEMSRead. non-trivial = read of >= 2 cells with a masked cell or a non-integer value")
+RULE += (' Files in every NetCDF format, CF-packed and big-endian variables, layers without a single value, values next to the markers; Integer reads of decoded float64 data stratified.')
 TRUSTED = ["the netCDF4 C library and its Python binding: the model starts from the variable as netCDF4 hands it over and assumes load(store v) = v (named hypothesis of C18_roundtrip)"]
 ASSUMPTIONS = ["values exactly representable in the stored type; the Fuzzy tolerance compares against the rational 1.02"]
 
